@@ -106,6 +106,12 @@ def run(tier):
             if what == "shared-node":
                 check.violation({"class": "C12.shared-node", "kind": str(detail).split(" ")[0], "parent": str(detail).split(" of ")[-1], "role": "pair"},
                                 {"src": "<?php " + a + "\n" + b, "ver": ver, "detail": detail})
+    # the obligation LRValues.tla puts on grammar actions (every empty / error production whose value is read assigns $$): a stale
+    # value there puts a node of an EARLIER construct into the tree (foreign text, a node reachable twice, PHP 5 != PHP 7)
+    from . import yaccobl
+    for fam_ in ("7", "5"):
+        for sig_, rep_ in yaccobl.check_family(check, fam_):
+            check.violation(sig_, rep_)
     check.cov["parsed_trees"] = nparsed
     check.cov["kinds_in_parsed_trees"] = len(pk)
     check.assumptions += ["NodeSchema.tla (frozen, compared with pkg/ast at run time): field order is source order",
